@@ -49,6 +49,7 @@ structure NetCfg where
   mtu      : List (String × Nat) := []                -- "a>b" or "*"
   defaultMtu : Nat := 1475
   pcap     : Bool := false
+  dns      : List (String × (Ec × List String × Int)) := []   -- name ↦ (error, addresses, latency)
   deriving Repr
 
 def lookupStar (tbl : List (String × List String)) (k : String) : List String :=
@@ -77,6 +78,7 @@ structure Compl where
 inductive ICb where
   | udpSendWait (sock : String)        -- deferred wait-for-write of a UDP socket
   | tcpConnectRefused (sock : String) (h : Nat)
+  | resolverLookup (res : String)        -- `basic_resolver::on_lookup`
   deriving Repr, DecidableEq
 
 inductive NEff where
